@@ -845,6 +845,7 @@ func verifAssume(cond bool) {}
 //@   modifies *msg
 //@   oncall [C01,C02] encoding/json.Unmarshal[*rawEnvelope] : a_data == b
 //@   oncall [C01,C02] (*Message).populate : a_raw == argof("encoding/json.Unmarshal[*rawEnvelope]", 1).(*rawEnvelope) && *a_raw == atreturn("encoding/json.Unmarshal[*rawEnvelope]", *a_raw)  ## populate sees exactly what json.Unmarshal decoded
+//@   oncall [C01,C02] (*Message).populate : *a_msg == Message{}  ## ... and fills a zero value: populate leaves absent optional fields alone, so whatever the target held before would survive into the decoded envelope
 //@   checks [C01,C02] @decodesonce result == nil ==> ncalls("encoding/json.Unmarshal[*rawEnvelope]") == 1 && ncalls("(*Message).populate") == 1 && nerr("encoding/json.Unmarshal[*rawEnvelope]") == 0 && nerr("(*Message).populate") == 0
 //@   checks [C01,C02] @storeswhole result == nil ==> *msg == atreturn("(*Message).populate", *argof("(*Message).populate", 0))  ## the receiver ends up holding exactly the populated value
 
@@ -927,6 +928,7 @@ func verifAssume(cond bool) {}
 //@   modifies *not
 //@   oncall [C01,C02] encoding/json.Unmarshal[*rawEnvelope] : a_data == b
 //@   oncall [C01,C02] (*Notification).populate : a_raw == argof("encoding/json.Unmarshal[*rawEnvelope]", 1).(*rawEnvelope) && *a_raw == atreturn("encoding/json.Unmarshal[*rawEnvelope]", *a_raw)  ## populate sees exactly what json.Unmarshal decoded
+//@   oncall [C01,C02] (*Notification).populate : *a_not == Notification{}  ## ... and fills a zero value: populate leaves absent optional fields alone, so whatever the target held before would survive into the decoded envelope
 //@   checks [C01,C02] @decodesonce result == nil ==> ncalls("encoding/json.Unmarshal[*rawEnvelope]") == 1 && ncalls("(*Notification).populate") == 1 && nerr("encoding/json.Unmarshal[*rawEnvelope]") == 0 && nerr("(*Notification).populate") == 0
 //@   checks [C01,C02] @storeswhole result == nil ==> *not == atreturn("(*Notification).populate", *argof("(*Notification).populate", 0))  ## the receiver ends up holding exactly the populated value
 
@@ -978,6 +980,7 @@ func verifAssume(cond bool) {}
 //@   modifies *cmd
 //@   oncall [C01,C02] encoding/json.Unmarshal[*rawEnvelope] : a_data == b
 //@   oncall [C01,C02] (*RequestCommand).populate : a_raw == argof("encoding/json.Unmarshal[*rawEnvelope]", 1).(*rawEnvelope) && *a_raw == atreturn("encoding/json.Unmarshal[*rawEnvelope]", *a_raw)  ## populate sees exactly what json.Unmarshal decoded
+//@   oncall [C01,C02] (*RequestCommand).populate : *a_cmd == RequestCommand{}  ## ... and fills a zero value: populate leaves absent optional fields alone, so whatever the target held before would survive into the decoded envelope
 //@   checks [C01,C02] @decodesonce result == nil ==> ncalls("encoding/json.Unmarshal[*rawEnvelope]") == 1 && ncalls("(*RequestCommand).populate") == 1 && nerr("encoding/json.Unmarshal[*rawEnvelope]") == 0 && nerr("(*RequestCommand).populate") == 0
 //@   checks [C01,C02] @storeswhole result == nil ==> *cmd == atreturn("(*RequestCommand).populate", *argof("(*RequestCommand).populate", 0))  ## the receiver ends up holding exactly the populated value
 
@@ -1004,6 +1007,7 @@ func verifAssume(cond bool) {}
 //@   modifies *cmd
 //@   oncall [C01,C02] encoding/json.Unmarshal[*rawEnvelope] : a_data == b
 //@   oncall [C01,C02] (*ResponseCommand).populate : a_raw == argof("encoding/json.Unmarshal[*rawEnvelope]", 1).(*rawEnvelope) && *a_raw == atreturn("encoding/json.Unmarshal[*rawEnvelope]", *a_raw)  ## populate sees exactly what json.Unmarshal decoded
+//@   oncall [C01,C02] (*ResponseCommand).populate : *a_cmd == ResponseCommand{}  ## ... and fills a zero value: populate leaves absent optional fields alone, so whatever the target held before would survive into the decoded envelope
 //@   checks [C01,C02] @decodesonce result == nil ==> ncalls("encoding/json.Unmarshal[*rawEnvelope]") == 1 && ncalls("(*ResponseCommand).populate") == 1 && nerr("encoding/json.Unmarshal[*rawEnvelope]") == 0 && nerr("(*ResponseCommand).populate") == 0
 //@   checks [C01,C02] @storeswhole result == nil ==> *cmd == atreturn("(*ResponseCommand).populate", *argof("(*ResponseCommand).populate", 0))  ## the receiver ends up holding exactly the populated value
 
@@ -1092,6 +1096,7 @@ func verifAssume(cond bool) {}
 //@   modifies *s
 //@   oncall [C01,C02] encoding/json.Unmarshal[*rawEnvelope] : a_data == b
 //@   oncall [C01,C02] (*Session).populate : a_raw == argof("encoding/json.Unmarshal[*rawEnvelope]", 1).(*rawEnvelope) && *a_raw == atreturn("encoding/json.Unmarshal[*rawEnvelope]", *a_raw)  ## populate sees exactly what json.Unmarshal decoded
+//@   oncall [C01,C02] (*Session).populate : *a_s == Session{}  ## ... and fills a zero value: populate leaves absent optional fields alone, so whatever the target held before would survive into the decoded envelope
 //@   checks [C01,C02] @decodesonce result == nil ==> ncalls("encoding/json.Unmarshal[*rawEnvelope]") == 1 && ncalls("(*Session).populate") == 1 && nerr("encoding/json.Unmarshal[*rawEnvelope]") == 0 && nerr("(*Session).populate") == 0
 //@   checks [C01,C02] @storeswhole result == nil ==> *s == atreturn("(*Session).populate", *argof("(*Session).populate", 0))  ## the receiver ends up holding exactly the populated value
 
